@@ -77,6 +77,8 @@ class SortFootnotes(Transform):
 
     def apply(self, **kwargs: t.Any) -> None:
         """Apply the transform."""
+        self._forget_discarded()
+
         if not self.document.settings.myst_footnote_sort:
             return
 
@@ -92,6 +94,32 @@ class SortFootnotes(Transform):
             return 999
 
         self.document.autofootnotes.sort(key=_sort_key)
+
+
+    def _forget_discarded(self) -> None:
+        """Remove footnotes and footnote references from the document's registries,
+        if they are not part of the document.
+
+        A directive can discard its parsed content (e.g. a figure with an invalid caption),
+        after the footnotes inside it have been registered;
+        these would otherwise be numbered and linked to by the ``Footnotes`` transform.
+        """
+
+        def _in_document(node: nodes.Node) -> bool:
+            while node.parent is not None:
+                node = node.parent
+            return node is self.document
+
+        doc = self.document
+        for registry in (
+            doc.footnotes,
+            doc.autofootnotes,
+            doc.symbol_footnotes,
+            doc.autofootnote_refs,
+            doc.symbol_footnote_refs,
+            *doc.footnote_refs.values(),
+        ):
+            registry[:] = [node for node in registry if _in_document(node)]
 
 
 class CollectFootnotes(Transform):
